@@ -1,5 +1,7 @@
 import PoolProofs.C15LemmasInst
 import PoolProofs.C15LemmasStr
+import PoolProofs.C15LemmasB58
+import PoolProofs.C10
 /-! # C15 — sidecar ticket encodings round-trip and reject damaged strings
 
 Theorems about the model of sidecar/tlv.go and sidecar/codec.go (`Pool.Dec`).  SHA-256 is an arbitrary
@@ -24,16 +26,18 @@ theorem C15_stream_roundtrip {σ : Type} (p2p : Bool) (maxAlloc : Nat) (wt : Boo
 
 /-- execution part: `deserializeExecution (serializeExecution e) = e` -/
 theorem C15_execution_roundtrip (cfg : Cfg) (e : Execution) (h : e.wf) :
-    ∃ b, serializeExecution e = .ok b ∧ deserializeExecution cfg b = .ok e :=
-  execution_roundtrip cfg e h
+    ∃ b, serializeExecution e = .ok b ∧ deserializeExecution cfg b = .ok e := by
+  obtain ⟨b, h1, h2, _⟩ := execution_roundtrip cfg e h
+  exact ⟨b, h1, h2⟩
 
 example : Execution.wf { pendingChannelID := List.replicate 32 7 } := by unfold Execution.wf; decide
 
 /-- order part, with or without the order signature (zero signature ↔ absent: a present signature
 object must be non-zero with low S, as a signer produces it) -/
 theorem C15_order_roundtrip (cfg : Cfg) (o : Order) (h : o.wf) :
-    ∃ b, serializeOrder o = .ok b ∧ deserializeOrder cfg b = .ok o :=
-  order_roundtrip cfg o h
+    ∃ b, serializeOrder o = .ok b ∧ deserializeOrder cfg b = .ok o := by
+  obtain ⟨b, h1, h2, _⟩ := order_roundtrip cfg o h
+  exact ⟨b, h1, h2⟩
 
 example : Order.wf { bidNonce := List.replicate 32 1, sigOrderDigest := some ⟨5, 9⟩ } :=
   ⟨by decide, by intro g hg; cases hg; decide⟩
@@ -108,6 +112,15 @@ theorem C15_accept_characterisation (H : Bytes → Bytes) (hH : ∀ x, 4 ≤ (H 
     rw [if_neg (by omega), if_neg (by simpa using hp), if_neg (by simpa using hc)]
     exact hd
 
+/-- (regenerated facts) the two comparisons of `DecodeString` that the model mirrors as exact
+(in)equalities are, in the current codec.go, the exact string inequality `encodedPrefix != sidecarPrefix`
+and `!bytes.Equal(checksum, calculatedChecksum)` over the full slices.  A source that compares in any
+other way (case-insensitively, on a shorter slice, …) breaks this obligation, and with it the claim that
+`C15_wrong_prefix_rejected` / `C15_accept_characterisation` speak about the code. -/
+theorem C15_source_comparisons_exact :
+    Pool.Gen.C15.decodeStringPrefixCond = "encodedPrefix != sidecarPrefix" ∧
+    Pool.Gen.C15.decodeStringChecksumCond = "!bytes.Equal(checksum, calculatedChecksum)" := by decide
+
 /-- A string whose first seven bytes are not exactly the prefix is never accepted. -/
 theorem C15_wrong_prefix_rejected (H : Bytes → Bytes) (hH : ∀ x, 4 ≤ (H x).length) (cfg : Cfg) (s : Bytes)
     (h : s.take 7 ≠ prefixBytes) (t : Ticket) : decodeString H cfg s ≠ .ok t := by
@@ -157,26 +170,181 @@ theorem C15_different_ticket_needs_valid_pair (H : Bytes → Bytes) (hH : ∀ x,
   · obtain ⟨_, _, r', e', _, hc2, _⟩ := (C15_accept_characterisation H hH cfg s' t').1 h'
     rw [hr'] at e'; cases e'; exact hc2
 
-/-! ## the property in full (partly proved) -/
+/-! ## round trips -/
 
-/-- well-formed ticket: fixed-size fields have their size, numbers fit their wire width, keys are
-accepted by the key parser, signature objects are non-zero with low S -/
-def Ticket.wf (t : Ticket) : Prop :=
-  t.id.length = 8 ∧ t.version < 256 ∧ t.state < 256 ∧
-  t.offer.capacity < 2 ^ 64 ∧ t.offer.pushAmt < 2 ^ 64 ∧ t.offer.leaseDuration < 2 ^ 32 ∧
-  (∀ k, t.offer.signPubKey = some k → keyWF k) ∧ (∀ g, t.offer.sigOfferDigest = some g → g.wf = true) ∧
-  (∀ r, t.recipient = some r → r.multiSigKeyIndex < 2 ^ 32 ∧ (∀ k, r.nodePubKey = some k → keyWF k) ∧
-      (∀ k, r.multiSigPubKey = some k → keyWF k)) ∧
-  (∀ o, t.order = some o → o.wf) ∧ (∀ e, t.execution = some e → e.wf)
+/-- **ticket_roundtrip**: every well-formed ticket (`Ticket.wf`: field sizes, numbers within their wire
+width, keys the parser returns unchanged, signature objects non-zero with low S) – any state and version,
+any subset of recipient / order / execution, optional keys and signatures, all flag combinations –
+serialises, and the bytes deserialise to the same ticket. -/
+theorem C15_ticket_roundtrip (cfg : Cfg) (hm : 1000 ≤ cfg.maxAlloc) (t : Ticket) (h : t.wf) :
+    ∃ b, serializeTicket t = .ok b ∧ deserializeTicket cfg b = .ok t :=
+  ⟨_, (ticket_roundtrip cfg hm t h).1, (ticket_roundtrip cfg hm t h).2⟩
 
-/-- C15 as stated.  NOT proved in full: proved are the generic stream round trip, its instances for the
-order and execution parts, and the complete acceptance characterisation of the string form; the
-instances for the offer, recipient and top-level streams, the base58 round trip and hence
-`string_roundtrip` are covered by the byte-exact correspondence run only (see notes/C15.md). -/
+/-- the secp256k1 generator, compressed: a key `ParsePubKey` accepts and returns unchanged -/
+def gKey : Bytes := (2 : UInt8) :: toBE 32 0x79BE667EF9DCBBAC55A06295CE870B07029BFCDB2DCE28D959F2815B16F81798
+
+set_option maxRecDepth 20000 in
+theorem gKey_wf : keyWF gKey := by
+  constructor
+  · decide
+  · decide +kernel
+
+/-- a populated ticket used for non-vacuity -/
+def exampleTicket : Ticket :=
+  { id := List.replicate 8 1, version := 1, state := 4,
+    offer := { capacity := 1000000, pushAmt := 5, leaseDuration := 2016, signPubKey := some gKey,
+               sigOfferDigest := some ⟨5, 9⟩, auto := true, unannounced := true },
+    recipient := some { nodePubKey := some gKey, multiSigKeyIndex := 7 },
+    order := some { bidNonce := List.replicate 32 3, sigOrderDigest := some ⟨1, 1⟩ },
+    execution := some { pendingChannelID := List.replicate 32 9 } }
+
+/-- a well-formed ticket with recipient, order, execution and both signatures exists (non-vacuity) -/
+theorem exampleTicket_wf : exampleTicket.wf := by
+  unfold Ticket.wf
+  refine ⟨by decide, by decide, by decide, ?_, ?_, ?_, ?_⟩
+  · unfold Offer.wf
+    refine ⟨by decide, by decide, by decide, ?_, ?_⟩
+    · intro k hk; injection hk with hk; subst hk; exact gKey_wf
+    · intro g hg; injection hg with hg; subst hg; decide
+  · intro r hr; injection hr with hr; subst hr
+    unfold Recipient.wf
+    refine ⟨by decide, ?_, ?_⟩
+    · intro k hk; injection hk with hk; subst hk; exact gKey_wf
+    · intro k hk; cases hk
+  · intro o ho; injection ho with ho; subst ho
+    unfold Order.wf
+    refine ⟨by decide, ?_⟩
+    intro g hg; injection hg with hg; subst hg; decide
+  · intro e he; injection he with he; subst he
+    unfold Execution.wf; decide
+
+example : ∃ b, serializeTicket exampleTicket = .ok b ∧
+    deserializeTicket { p2pTop := true, p2pSub := true, maxAlloc := 65535 } b = .ok exampleTicket :=
+  C15_ticket_roundtrip _ (by decide) _ exampleTicket_wf
+
+/-- **base58_roundtrip** -/
+theorem C15_base58_roundtrip (m : Nat) (b : Bytes) (hm : b.length ≤ m) : b58Decode m (b58Encode b) = .ok b :=
+  b58_roundtrip m b hm
+
+example : b58Decode 10 (b58Encode [0, 0, 1, 2, 3]) = .ok [0, 0, 1, 2, 3] := C15_base58_roundtrip 10 _ (by decide)
+
+theorem payload_split (v : UInt8) (ser c : Bytes) (hc : c.length = 4) :
+    payloadOf (v :: (ser ++ c)) = ser ∧ checksumOf (v :: (ser ++ c)) = c := by
+  unfold payloadOf checksumOf
+  have hl : (v :: (ser ++ c)).length - 4 = ser.length + 1 := by simp; omega
+  rw [hl]
+  constructor
+  · rw [List.take_succ_cons, take_append_len ser c ser.length rfl]; rfl
+  · rw [List.drop_succ_cons, drop_append_len ser c ser.length rfl]
+
+theorem ticket_enc_length (cfg : Cfg) (t : Ticket) (h : t.wf) (_hm : 1000 ≤ cfg.maxAlloc) :
+    (encAligned (ticketRecs cfg) (ticketVals t)).length ≤ 5000 := by
+  have := encAligned_length_le (ticketRecs cfg) (ticketVals t)
+  obtain ⟨hid, _, _, hoff, hr, ho, he⟩ := h
+  have h1 := (offer_rt cfg t.offer hoff).2
+  obtain ⟨id, ver, st, off, rcp, ord, exe⟩ := t
+  simp only at hid h1 hr ho he
+  cases rcp with
+  | none =>
+    cases ord with
+    | none =>
+      cases exe with
+      | none => simp only [ticketVals, Option.map, boundAligned, hid, List.length_cons, List.length_nil] at this ⊢; omega
+      | some e =>
+        have := (execution_rt cfg e (he e rfl)).2
+        simp only [ticketVals, Option.map, boundAligned, hid, List.length_cons, List.length_nil] at *; omega
+    | some o =>
+      have := (order_rt cfg o (ho o rfl)).2
+      cases exe with
+      | none => simp only [ticketVals, Option.map, boundAligned, hid, List.length_cons, List.length_nil] at *; omega
+      | some e =>
+        have := (execution_rt cfg e (he e rfl)).2
+        simp only [ticketVals, Option.map, boundAligned, hid, List.length_cons, List.length_nil] at *; omega
+  | some r =>
+    have := (recipient_rt cfg r (hr r rfl)).2
+    cases ord with
+    | none =>
+      cases exe with
+      | none => simp only [ticketVals, Option.map, boundAligned, hid, List.length_cons, List.length_nil] at *; omega
+      | some e =>
+        have := (execution_rt cfg e (he e rfl)).2
+        simp only [ticketVals, Option.map, boundAligned, hid, List.length_cons, List.length_nil] at *; omega
+    | some o =>
+      have := (order_rt cfg o (ho o rfl)).2
+      cases exe with
+      | none => simp only [ticketVals, Option.map, boundAligned, hid, List.length_cons, List.length_nil] at *; omega
+      | some e =>
+        have := (execution_rt cfg e (he e rfl)).2
+        simp only [ticketVals, Option.map, boundAligned, hid, List.length_cons, List.length_nil] at *; omega
+
+/-- **string_roundtrip**: `DecodeString (EncodeToString t) = t` for every well-formed ticket, for any
+hash function `H` with at least 4 output bytes. -/
+theorem C15_string_roundtrip (H : Bytes → Bytes) (hH : ∀ x, 4 ≤ (H x).length) (cfg : Cfg)
+    (hm : 65535 ≤ cfg.maxAlloc) (t : Ticket) (h : t.wf) :
+    ∃ s, encodeToString H t = .ok s ∧ decodeString H cfg s = .ok t := by
+  have hm' : 1000 ≤ cfg.maxAlloc := by omega
+  obtain ⟨hser, hdes⟩ := ticket_roundtrip cfg hm' t h
+  let ser := encAligned (ticketRecs cfg) (ticketVals t)
+  let c := (H (checksumInput ser)).take 4
+  have hc : c.length = 4 := by simp [c]; have := hH (checksumInput ser); omega
+  refine ⟨prefixBytes ++ b58Encode ((0 : UInt8) :: (ser ++ c)), ?_, ?_⟩
+  · unfold encodeToString
+    rw [hser]
+    simp only
+    rw [slice_ok _ 0 Pool.Gen.C15.checksumLen ⟨by omega, by have := hH (checksumInput ser); exact this⟩]
+    rfl
+  · rw [C15_accept_characterisation H hH cfg _ t]
+    have hp : prefixBytes.length = 7 := prefix_len
+    refine ⟨by simp only [List.length_append]; omega, take_append_len _ _ 7 hp, (0 : UInt8) :: (ser ++ c), ?_, ?_, ?_, ?_⟩
+    · rw [drop_append_len _ _ 7 hp]
+      apply C15_base58_roundtrip
+      have hlen : ser.length ≤ 5000 := ticket_enc_length cfg t h hm'
+      simp only [List.length_cons, List.length_append, hc]
+      omega
+    · simp only [List.length_cons, List.length_append, hc]; omega
+    · rw [(payload_split 0 ser c hc).1, (payload_split 0 ser c hc).2]; rfl
+    · rw [(payload_split 0 ser c hc).1]; exact hdes
+
+/-! ## embedded in a stored bid
+
+The trader database model of property C10 (`Pool.C10`, tag store) treats the ticket of a bid as the byte
+blob `SerializeTicket` produced and proves that the whole order bucket reads back as written
+(`Pool.C10.order_roundtrip`).  Composed with `C15_ticket_roundtrip`: -/
+
+/-- **embedded_in_bid_roundtrip**: store any well-formed bid carrying the serialisation of a well-formed
+ticket (clientdb `SubmitOrder` / `updateOrder`: keys `order`, `order-min-units-match`, `order-tlv`,
+`order-tier`), load it (`GetOrder`): the bid comes back with exactly that blob, and the blob
+deserialises to the same ticket. -/
+theorem C15_embedded_in_bid_roundtrip (cfg : Cfg) (hm : 1000 ≤ cfg.maxAlloc) (t : Ticket) (h : t.wf)
+    (k : Pool.C10.Kit) (tier scb : Nat) (u z : Bool)
+    (hk : k.WF) (ht : Pool.C10.WFu32 tier) (hs : Pool.C10.WFu64 scb) :
+    ∃ blob, serializeTicket t = .ok blob ∧
+      Pool.C10.loadOrder k.nonce (Pool.C10.storeOrder (.bid k tier scb (some blob) u z))
+        = .ok (.bid k tier scb (some blob) u z) [] ∧
+      deserializeTicket cfg blob = .ok t := by
+  obtain ⟨hser, hdes⟩ := ticket_roundtrip cfg hm t h
+  refine ⟨_, hser, ?_, hdes⟩
+  have hlen := ticket_enc_length cfg t h hm
+  have hwf : (Pool.C10.Order.bid k tier scb (some (encAligned (ticketRecs cfg) (ticketVals t))) u z).WF := by
+    refine ⟨hk, ht, hs, ?_⟩
+    show (encAligned (ticketRecs cfg) (ticketVals t)).length < 2 ^ 48
+    omega
+  exact Pool.C10.order_roundtrip _ hwf
+
+/-! ## the property in full -/
+
+/-- C15's round-trip and rejection clauses for the binary and the string form (the bid embedding is
+`C15_embedded_in_bid_roundtrip` above). -/
 def C15_full_statement : Prop :=
-  (∀ cfg t, Ticket.wf t → ∃ b, serializeTicket t = .ok b ∧ deserializeTicket cfg b = .ok t) ∧
+  (∀ (cfg : Cfg) t, Ticket.wf t → 1000 ≤ cfg.maxAlloc → ∃ b, serializeTicket t = .ok b ∧ deserializeTicket cfg b = .ok t) ∧
   (∀ m b, b.length ≤ m → b58Decode m (b58Encode b) = .ok b) ∧
-  (∀ (H : Bytes → Bytes) cfg t, (∀ x, 4 ≤ (H x).length) → Ticket.wf t → 65535 ≤ cfg.maxAlloc →
-      ∃ s, encodeToString H t = .ok s ∧ decodeString H cfg s = .ok t)
+  (∀ (H : Bytes → Bytes) (cfg : Cfg) t, (∀ x, 4 ≤ (H x).length) → Ticket.wf t → 65535 ≤ cfg.maxAlloc →
+      ∃ s, encodeToString H t = .ok s ∧ decodeString H cfg s = .ok t) ∧
+  (∀ (H : Bytes → Bytes) (cfg : Cfg) s t, (∀ x, 4 ≤ (H x).length) → s.take 7 ≠ prefixBytes → decodeString H cfg s ≠ .ok t)
+
+theorem C15_full : C15_full_statement :=
+  ⟨fun cfg t h hm => C15_ticket_roundtrip cfg hm t h, C15_base58_roundtrip,
+   fun H cfg t hH h hm => C15_string_roundtrip H hH cfg hm t h,
+   fun H cfg s t hH hp => C15_wrong_prefix_rejected H hH cfg s hp t⟩
 
 end Pool.C15
